@@ -395,7 +395,12 @@ def run_case(case):
             multiset = any(has_multiset(x) for x in specs + list(case['args2']) + [v for _, v in case['kws2']])
             if multiset:
                 classes.append('sharing_not_asserted_sets')   # repr order of a set with >1 element is not a rounding matter
-            if case['algo'] != 'no' and not case['algo'].endswith(':0') and not out and not multiset:
+            pickled_identity = bool(case.get('alias')) and case['keymap']['cls'] == 'picklemap' and case['keymap'].get('opt') is not None
+            if pickled_identity:
+                # keys made by a real pickler record which objects inside the arguments are identical (open finding D25, C09): with the same object
+                # passed twice in one of the two calls, whether they share an entry is not a rounding matter
+                classes.append('sharing_not_asserted_pickled_identity')
+            if case['algo'] != 'no' and not case['algo'].endswith(':0') and not out and not multiset and not pickled_identity:
                 evaluated_again = (n2 - n1) == 1
                 if shares and evaluated_again:
                     out.append(Discrepancy('C12/%s/same-rounding-not-shared' % tag, 'tol=%r deep=%r: %r %r and %r %r round to the same values but were computed separately' % (tol, deep, a1, k1, a2, k2)))
